@@ -1,2 +1,27 @@
--- stub: replaced by the component's line-protocol driver
-def main : IO Unit := pure ()
+import CelmaVerif.Base.Proto
+import CelmaVerif.Model.TextBlock
+/- line-protocol driver for the text block component (C17)
+
+   tb format indent=<n> width=<n> first=<0|1> text=<hex>   ->  ok out=<hex of the rendered lines>
+
+   Bytes are mapped to the characters with the same code (0..255) and back, so the model works on
+   exactly the byte string the C++ sees. -/
+open CelmaVerif CelmaVerif.TextBlock CelmaVerif.Proto
+
+def step (_ : Unit) (line : String) : Unit × String :=
+  match tokens line with
+  | ["case", _] => ((), "ok")
+  | ["tb", "format", a, b, c, d] =>
+    let t := [a, b, c, d]
+    match (kv t "indent").bind (·.toNat?), (kv t "width").bind (·.toNat?), kv t "first",
+          (kv t "text").bind hexDecode with
+    | some i, some w, some f, some bytes =>
+      if (f ≠ "0" ∧ f ≠ "1") ∨ i ≥ 1000000000 ∨ w ≥ 1000000000 then ((), "bad-op")
+      else
+        let cfg : Cfg := { indent := i, width := w, first := f == "1" }
+        let out := render (format cfg (bytes.map Char.ofNat))
+        ((), s!"ok out={hexOut (out.map Char.toNat)}")
+    | _, _, _, _ => ((), "bad-op")
+  | _ => ((), "bad-op")
+
+def main : IO Unit := run () step
